@@ -185,7 +185,7 @@ def binary_node_contract(node, resolver, addr, content):
     scope = resolver.current_scope
     n = len(content)
     r = node.emit(addr)
-    check("verbatim", r is content)
+    check("verbatim", r == content)
     after = node.pc_after(addr)
     check("occupies_len_bytes", after.physical == addr.physical + n)
     check("start_symbol", scope.symbols[node.symbol_base] == addr.logical_value and scope.labels[node.symbol_base] == addr.logical_value)
@@ -195,7 +195,7 @@ def binary_node_contract(node, resolver, addr, content):
 def binary_node_init_contract(path, resolver, content):
     """BinaryNode.__init__: the node's content is the named file's content at the time the directive is expanded."""
     from a816.parse.nodes import BinaryNode
-    ghost("file_content", content)
+    ghost("fs", {path: content})
     node = BinaryNode(path, resolver)
     check("content_is_file_content", node.binary_content == content)
     check("symbol_base", node.symbol_base == "data_file_bin" and node.file_path == path and node.resolver is resolver)
